@@ -60,8 +60,11 @@ def c02():
                   "(each once, none outside) and a linear extension of the spec's Produces relation; repeated under several PYTHONHASHSEED values. "
                   "non-trivial = transition whose triggered task set is non-empty",
                   plans, tags=["C02"], modes=modes, hashseeds=hs, queries=False, finish=False)
-    from . import mgr_trace
+    from . import mgr_trace, sort_replay
     mgr_trace.stage(v, "C02", modes=modes)
+    # the sorting routine itself: Toposort.tla (sorting.py transcribed; TLC proves the lemma "reverse post-order of an acyclic graph is topological and
+    # lists exactly the reachable vertices" for every graph over 3 (4) vertices) and every finished run executed on the real toposort()
+    sort_replay.stage(v, "C02", _q())
     return v.finish()
 
 
